@@ -15,14 +15,15 @@ Prog == << [k |-> "const", name |-> "n", oid |-> 1],
            [k |-> "expr", paths |-> <<p1, p2>>, oidss |-> <<<<11>>, <<12>>>>],
            [k |-> "var", name |-> "v", oid |-> 13],
            [k |-> "ifdef", path |-> p3, oids |-> <<21>>, body |-> << Use(<<"n">>, 30) >>],
-           [k |-> "loop", path |-> <<"n">>, oids |-> <<41>>, sid |-> "$l1", body |-> << Use(p5, 50) >>] >>
+           [k |-> "loop", path |-> <<"n">>, oids |-> <<41>>, sid |-> "$l1", body |-> << Use(p5, 50) >>],
+           [k |-> "var", name |-> "w", oid |-> 60], Use(<<"w">>, 60) >>         \* a symbol defined after the loop (it may get the node index of `index')
 Files == [m |-> Prog]
 P == Project(Files, "m")
 Names == {<<"n">>, <<"v">>}
 Init == p0 \in Names /\ q0 \in Names /\ p1 \in Names /\ p2 \in Names /\ p3 \in Names /\ p5 \in {<<"n">>, <<"index">>}
 Next == UNCHANGED vars
 Spec == Init /\ [][Next]_vars
-EachOccurrenceCounts == /\ {o.oid : o \in P.occs} = {1, 5, 7, 8, 11, 12, 13, 21, 31, 41, 51}
+EachOccurrenceCounts == /\ {o.oid : o \in P.occs} = {1, 5, 7, 8, 11, 12, 13, 21, 31, 41, 51, 60, 61}
                         /\ (p1 = p2 => NodeOf(P, 11) = NodeOf(P, 12))
                         /\ RenameSet(P, 1) = {o.oid : o \in {x \in P.occs : x.node = 1}}
 VarIsOneSymbol == NodeOf(P, 13) = 8 /\ ~OccOf(P, 13).def /\ OccOf(P, 8).def
